@@ -5,6 +5,7 @@ package backend
 import (
 	"go/ast"
 	"go/parser"
+	"go/printer"
 	gotoken "go/token"
 
 	"bytes"
@@ -306,8 +307,110 @@ func TestVerifDump(t *testing.T) {
 		})
 		return false
 	})
-	b, _ := json.Marshal(map[string]interface{}{"analyzeDefer": events})
+	// the declared type of the mutex field guarding the result list
+	muType := ""
+	ast.Inspect(f, func(n ast.Node) bool {
+		ts, ok := n.(*ast.TypeSpec)
+		if !ok || ts.Name.Name != "ClassifierBackend" {
+			return true
+		}
+		if st, ok := ts.Type.(*ast.StructType); ok {
+			for _, fld := range st.Fields.List {
+				for _, nm := range fld.Names {
+					if nm.Name == "mu" {
+						var sb strings.Builder
+						printer.Fprint(&sb, fset, fld.Type)
+						muType = sb.String()
+					}
+				}
+			}
+		}
+		return false
+	})
+	b, _ := json.Marshal(map[string]interface{}{"analyzeDefer": events, "locks": vlockSkeletons(t, "results", "mu"), "muType": muType})
 	if err := os.WriteFile(os.Getenv("VERIF_OUT")+"/cliprotocol.json", b, 0o644); err != nil {
 		t.Fatal(err)
 	}
+}
+
+// TestVerifC19Race (run with -race by bin/check): the pool the tool uses, in process, over many files
+// that each yield many matches (a license plus a block of copyright notices), at several -tasks
+// levels: the collected results must be exactly the library's matches — as a multiset, whatever the
+// interleaving — and the race detector watches the shared result list and the pool's channels.
+func TestVerifC19Race(t *testing.T) {
+	o := newVout()
+	defer o.close()
+	r := newVrand(vseed() + 190)
+	lc, err := assets.DefaultClassifier()
+	if err != nil {
+		t.Fatal(err)
+	}
+	mit, err := assets.ReadLicenseFile("License/MIT/a.txt")
+	if err != nil {
+		t.Fatal(err)
+	}
+	root, err := os.MkdirTemp("", "verifc19r")
+	if err != nil {
+		t.Fatal(err)
+	}
+	defer os.RemoveAll(root)
+	nfiles := 40
+	if vthorough() {
+		nfiles = 400
+	}
+	var files []string
+	want := map[string]int{}
+	for i := 0; i < nfiles; i++ {
+		var sb bytes.Buffer
+		for k := 0; k < 5+r.intn(30); k++ {
+			fmt.Fprintf(&sb, "Copyright %d Holder Number %d\n", 1990+k, k)
+		}
+		sb.Write(mit)
+		p := filepath.Join(root, fmt.Sprintf("d%d", i%7), fmt.Sprintf("f%d.txt", i))
+		os.MkdirAll(filepath.Dir(p), 0o755)
+		os.WriteFile(p, sb.Bytes(), 0o644)
+		files = append(files, p)
+		for _, m := range lc.Match(sb.Bytes()).Matches {
+			want[fmt.Sprintf("%s|%s|%s|%s|%x|%d|%d", p, m.MatchType, m.Name, m.Variant, m.Confidence, m.StartLine, m.EndLine)]++
+		}
+	}
+	for _, tasks := range []int{1, 4, 64} {
+		be := &ClassifierBackend{classifier: lc}
+		id := fmt.Sprintf("pool_k%d", tasks)
+		o.attempt("C19", id, map[string]interface{}{"tasks": tasks, "files": len(files)})
+		var errs []error
+		pan, msg := catch(func() { errs = be.ClassifyLicenses(tasks, files, true) })
+		got := map[string]int{}
+		for _, x := range be.GetResults() {
+			if x != nil {
+				got[fmt.Sprintf("%s|%s|%s|%s|%x|%d|%d", x.Filename, x.MatchType, x.Name, x.Variant, x.Confidence, x.StartLine, x.EndLine)]++
+			} else {
+				got["<nil entry>"]++
+			}
+		}
+		what := ""
+		if pan {
+			what = "ClassifyLicenses panicked: " + msg
+		} else if len(errs) > 0 {
+			what = fmt.Sprint("errors: ", errs)
+		} else {
+			var diff []string
+			for k, n := range want {
+				if got[k] != n {
+					diff = append(diff, fmt.Sprintf("%s: library %d, pool %d", filepath.Base(strings.SplitN(k, "|", 2)[0])+"|"+strings.SplitN(k, "|", 2)[1], n, got[k]))
+				}
+			}
+			for k, n := range got {
+				if want[k] == 0 {
+					diff = append(diff, fmt.Sprintf("%s: library 0, pool %d", k, n))
+				}
+			}
+			sort.Strings(diff)
+			if len(diff) > 0 {
+				what = fmt.Sprintf("-tasks %d: %d result lines differ from the library's matches, e.g. %s", tasks, len(diff), strings.Join(diff[:1], "; "))
+			}
+		}
+		o.verdict("C19", id, what == "", true, id, map[string]interface{}{"what": what, "tasks": tasks, "files": len(files), "expected_lines": len(want)})
+	}
+	o.stat("C19", map[string]interface{}{"pool_files": len(files)})
 }
